@@ -127,6 +127,10 @@ func registerNatives(e *Engine) {
 		x.inputs = append(x.inputs, inputVar{Name: full, T: x.st.Const(64, uint64(k)), Kind: "u64"})
 		return uint64(k)
 	})
+	V("HasParam", func(x *Exec, fr *frame, a []Value) Value {
+		_, ok := x.eng.cfg.Params[x.goString(a[0], "param name")]
+		return ok
+	})
 	V("Param", func(x *Exec, fr *frame, a []Value) Value {
 		name := x.goString(a[0], "param name")
 		v, ok := x.eng.cfg.Params[name]
